@@ -575,7 +575,7 @@ def segReads (hf : HashFn α H) (s : Segment α H) (size : Nat) (bm : Option (Na
   | .ok (stk, _) => if s.id.full size then [] else peakReads s bm stk (peaksIn s.id size)
   | _ => []
 
-theorem root_inj (hf : HashFn α H) (inj : Inj hf) (s1 s2 : Segment α H) (hid : s1.id = s2.id)
+theorem root_inj_old (hf : HashFn α H) (inj : Inj hf) (s1 s2 : Segment α H) (hid : s1.id = s2.id)
     (size : Nat) (bm : Option (Nat → Bool)) (wf : WellFormedRange s1.id size) (o1 o2 : Option H)
     (h1 : s1.root hf size bm = .ok o1) (h2 : s2.root hf size bm = .ok o2) :
     o1.isSome = o2.isSome ∧ (o1 = o2 → segReads hf s1 size bm = segReads hf s2 size bm) := by
